@@ -195,7 +195,9 @@ def hist_task(t):
                 cov['requests'] += 1
                 def viol(sym, what, A=A, B=B):
                     asserted = [c_ for c_ in hist[:pos + 1] if c_.startswith('a')]
-                    rec = {'logic': fam.logic, 'family': famname, 'options': [], 'symptom': sym, 'dup_assert': len(set(asserted)) < len(asserted),
+                    cur_forms = set(forms.values())
+                    # a formula that is CURRENTLY asserted was asserted more than once in this history (known partition-index defect)
+                    rec = {'logic': fam.logic, 'family': famname, 'options': [], 'symptom': sym, 'dup_assert': any(asserted.count(c_) > 1 and pool[int(c_[1:])] in cur_forms for c_ in set(asserted)),
                            'input_class': 'distinct_nary' if (any('(distinct a b c)' in f for f in forms.values()) and len(set(forms.values())) == len(forms)) else
                                           'group_unsat_alone' if (sym == 'rejected_request' and any(len(g) > 1 and refs.is_unsat(fam.logic, fam.decls, [forms[n] for n in g]) for g in (A, B))) else 'history',
                            'what': ('history %s, split %s | %s -> %s' % (','.join(hist[:pos + 1]), A, B, what))[:400]}
@@ -211,6 +213,61 @@ def hist_task(t):
                 res['distinct'].append((famname, tuple(sorted(forms[n] for n in A)), tuple(sorted(forms[n] for n in B)), 'hist'))
                 check_itp(prop, fam, usyms, [forms[n] for n in A], [forms[n] for n in B], itps[0], viol)
         if len(res['samples']) < 1: res['samples'].append({'history': list(hist), 'stdout': r.out[:200]})
+    return res
+
+
+PLACE_POOL = {
+    'PROP': ['(or p r)', '(and p (or (not p) q))', '(not q)', '(not r)', '(or q s)'],
+    'QF_LRA': ['(or p (<= x 0))', '(and (> x 1) (or (<= x 1) (> y 0)))', '(<= y 0)', '(not p)', '(or (> y 0) (> z 0))'],
+    'QF_UF': ['(or p (= a b))', '(and (= a c) (or (not (= a c)) (P b)))', '(not (P b))', '(not p)', '(or (P b) (P c))'],
+    'QF_LIA': ['(or p (<= x 0))', '(and (> x 1) (or (<= x 1) (> y 0)))', '(<= y 0)', '(not p)', '(or (> y 0) (> z 0))'],
+}
+
+
+def place_task(t):
+    """a frame [push, assert s, (check-sat), assert t, pop] with s,t from the pool or absent, followed by every unsat subset
+    (size<=3) of the pool asserted with names, check-sat, and every A/B split"""
+    prop, famname, start, step = t
+    fam = F.FAMILIES[famname]; pool = PLACE_POOL[famname]
+    usyms = user_symbols(fam)
+    res = core.new_result(); cov = res['cov']
+    w = S.worker()
+    subsets = [idxs for r in (2, 3) for idxs in itertools.combinations(range(len(pool)), r) if refs.is_unsat(fam.logic, fam.decls, [pool[i] for i in idxs])]
+    jobs = [(s, tt, chk_in, idxs) for s in [None] + list(range(len(pool))) for tt in [None] + list(range(len(pool))) for chk_in in (False, True) for idxs in subsets if not (s is None and tt is None and chk_in)]
+    for s, tt, chk_in, idxs in jobs[start::step]:
+        names = ['n%d' % j for j in range(len(idxs))]; forms = {('n%d' % j): pool[i] for j, i in enumerate(idxs)}
+        reqs = []
+        for r in range(1, len(names)):
+            for A in itertools.combinations(names, r):
+                reqs.append((list(A), [n for n in names if n not in A]))
+        pre = ''
+        if s is not None or tt is not None:
+            pre = '(push 1)' + ('(assert %s)' % pool[s] if s is not None else '') + ('(check-sat)' if chk_in else '') + ('(assert %s)' % pool[tt] if tt is not None else '') + '(pop 1)'
+        head = '(set-option :produce-interpolants true)(set-logic %s)%s%s(echo "@@")%s(check-sat)' % (fam.logic, fam.decls, pre, ''.join('(assert (! %s :named %s))' % (forms[n], n) for n in names))
+        script = head + ''.join('(echo "@@")(get-interpolants %s %s)' % (grp(A), grp(B)) for A, B in reqs)
+        r = w.run(script, timeout=10)
+        cov['executions'] += 1
+        if r.timeout or r.crash: cov['timeouts_or_crashes'] += 1; continue
+        pieces = r.out.split('@@\n')
+        if len(pieces) < 2 or S.blocks(pieces[1])[:1] != ['unsat']: cov['not_unsat'] += 1; continue
+        popped = [pool[i] for i in (s, tt) if i is not None]
+        for (A, B), piece in zip(reqs, pieces[2:]):
+            piece = piece.strip(); cov['requests'] += 1
+            def viol(sym, what, A=A, B=B):
+                rec = {'logic': fam.logic, 'family': famname, 'options': [], 'symptom': sym, 'site': 'other_setting',
+                       'input_class': 'placement_reassert' if (any(f in popped for f in forms.values()) or len(set(popped)) < len(popped)) else 'placement',
+                       'what': ('popped frame %s%s, then %s, split %s | %s -> %s' % (popped, ' (checked inside)' if chk_in else '', forms, A, B, what))[:400]}
+                res['violations'].append((rec, script, 'smt2'))
+            if S.is_error(piece) or not piece:
+                if any(len(g) > 1 and refs.is_unsat(fam.logic, fam.decls, [forms[n] for n in g]) for g in (A, B)): cov['rejected_group_unsat_alone'] += 1; continue
+                viol('rejected_request', 'answered with %s' % (piece[:100] or '(nothing)')); continue
+            try: itps = split_itps(piece)
+            except smtlib.ParseError: viol('bad_interpolant:unparsable', piece[:100]); continue
+            if len(itps) != 1: viol('bad_interpolant:wrong_number', piece[:100]); continue
+            cov['interpolants_checked'] += 1
+            res['distinct'].append((famname, tuple(popped), chk_in, tuple(sorted(forms[n] for n in A)), tuple(sorted(forms[n] for n in B))))
+            check_itp(prop, fam, usyms, [forms[n] for n in A], [forms[n] for n in B], itps[0], viol)
+        if len(res['samples']) < 1: res['samples'].append({'script': script[:500], 'stdout': r.out[:200]})
     return res
 
 
@@ -230,6 +287,7 @@ def run(prop, tier):
     chk.run_stage('single frame, subsets<=%d, %d settings' % (m, len(algs)), tasks, task)
     if prop == 'C08':
         chk.run_stage('histories L<=6 (3 assertions), default setting', [(prop, f, 6, s, 8) for f in ('QF_UF', 'QF_LRA', 'QF_LIA', 'PROP') for s in range(8)], hist_task)
+        chk.run_stage('placements: popped frame [assert s, (check), assert t] x every unsat subset (<=3) x every split', [(prop, f, s, 4) for f in PLACE_POOL for s in range(4)], place_task)
     if tier == 'thorough':
         tasks = [(prop, f, pn, 5, algs, s, 16) for f in ITP_FAMS for pn in ('hist', 'extra') for s in range(16)]
         chk.run_stage('single frame, subsets<=5', tasks, task)
